@@ -111,6 +111,9 @@ pub struct Req {
     /// small follow-up request (parks in poll_ready behind its own queued stream when the limit is reached)
     #[serde(default)]
     pub then_second: bool,
+    /// server application drops every handle of the stream as soon as it has accepted it (no response, no reset call)
+    #[serde(default)]
+    pub abandon: bool,
 }
 
 #[derive(Clone, Debug, Serialize, Deserialize)]
@@ -156,6 +159,9 @@ pub enum CapOp {
     Send { s: usize, n: usize },
     /// read capacity() of every stream at once
     Census,
+    /// the same, at a moment the program expects the connection to have settled with every reservation far above
+    /// what the connection window can give (conservation probe)
+    CensusFinal,
     End { s: usize },
     Reset { s: usize, code: u32 },
     Drop { s: usize },
@@ -324,6 +330,7 @@ pub fn gen_pair(tapes: &[Vec<u32>], focus: Focus) -> PairCase {
             drop_response_future: focus != Focus::Coop && t.chance(1, 10),
             clone_handle: t.chance(1, 3),
             then_second: focus != Focus::Resets && t.chance(1, 6),
+            abandon: false,
         });
     }
     // bound the number of DATA frames: with a window of w bytes a body of n bytes needs ≥ n/w frames
@@ -443,6 +450,7 @@ pub fn default_req(key: u32) -> Req {
         drop_response_future: false,
         clone_handle: false,
         then_second: false,
+        abandon: false,
     }
 }
 
@@ -1156,9 +1164,10 @@ async fn cap_app(prog: CapProgram, handles: Vec<server::SendResponse<SegBuf>>, l
     for op in &prog.ops {
         match op {
             CapOp::Yield(n) => yield_n(*n).await,
-            CapOp::Census => {
+            CapOp::Census | CapOp::CensusFinal => {
                 let v: Vec<(u32, usize)> = streams.iter().zip(sids.iter()).filter_map(|(s, id)| s.as_ref().map(|s| (*id, s.capacity()))).collect();
-                log.push(Side::Server, 0, Api::ConnOp { op: format!("census {:?}", v) });
+                let tag = if matches!(op, CapOp::CensusFinal) { "census-final" } else { "census" };
+                log.push(Side::Server, 0, Api::ConnOp { op: format!("{} {:?}", tag, v) });
             }
             CapOp::Reserve { s, n } => {
                 if let Some(Some(st)) = streams.get_mut(*s) {
@@ -1262,7 +1271,28 @@ async fn server_handler(req: http::Request<RecvStream>, mut respond: server::Sen
         // answer 200 with a short body
         None => default_req(key),
     };
-    ctx.sp.spawn(format!("s-reqbody-{}", key), Group::ServerApp, read_body(body, r.req_reader.clone(), key, Side::Server, log.clone()));
+    if r.abandon {
+        drop(body);
+        drop(respond);
+        log.push(Side::Server, key, Api::DroppedSend);
+        return;
+    }
+    // an application that does not read the body keeps the receive handle, without polling it, until the stream
+    // is reset or the connection ends
+    let hold_body = matches!(r.req_reader, Reader::Deferred(d) if d >= PARK);
+    let mut held_body = None;
+    if hold_body {
+        held_body = Some(body);
+    } else {
+        ctx.sp.spawn(format!("s-reqbody-{}", key), Group::ServerApp, read_body(body, r.req_reader.clone(), key, Side::Server, log.clone()));
+    }
+    if r.resp_delay >= PARK {
+        // an application that does not answer: it holds its handles until the stream is reset or the connection ends
+        let res = poll_fn(|cx| respond.poll_reset(cx)).await;
+        log.push(Side::Server, key, Api::ConnOp { op: format!("held stream ended: {:?}", res.map(|r| u32::from(r)).map_err(|e| e.to_string())) });
+        drop(held_body);
+        return;
+    }
     yield_n(r.resp_delay).await;
     for i in 0..r.interim {
         let resp = http::Response::builder().status(if i == 0 { 103 } else { 102 }).header("x-i", i.to_string()).body(()).unwrap();
@@ -1319,8 +1349,14 @@ async fn server_handler(req: http::Request<RecvStream>, mut respond: server::Sen
     let resp = b.body(()).unwrap();
     let mut f = vec![(":status".to_string(), r.status.to_string())];
     f.extend(fields_of(resp.headers()));
-    let eos = head_eos(&r.resp);
+    let eos = head_eos(&r.resp) && !hold_body;
     match respond.send_response(resp, eos) {
+        Ok(mut st) if hold_body => {
+            log.push(Side::Server, key, Api::SentHead { kind: "response", stream: sid, fields: f, eos });
+            let res = poll_fn(|cx| st.poll_reset(cx)).await;
+            log.push(Side::Server, key, Api::ConnOp { op: format!("held stream ended: {:?}", res.map(|r| u32::from(r)).map_err(|e| e.to_string())) });
+            drop(held_body);
+        }
         Ok(st) => {
             log.push(Side::Server, key, Api::SentHead { kind: "response", stream: sid, fields: f, eos });
             if !eos {
